@@ -19,6 +19,7 @@ META = {
         "against many targets, including lazily consumed searches that overlap in time. Non-trivial: |p|>=2, |t|>|p| and 0 < #occurrences < C(|t|,|p|); for histories "
         "additionally the same pattern object searched >= 2 times against different targets. Distinct = "
         "distinct case content."
+        " Light pairs: independent (pattern of 5-7 points, target of 8-12 points) pairs, listing / count / boolean entry points against the reference (every such case counts as non-trivial)."
     ),
     "assumptions": ["oracle: itertools.combinations + order-isomorphism test (pv/oracle.py), no permuta code"],
 }
